@@ -15,6 +15,9 @@ pub struct S { pub a: u64, pub v: Vec<u32>, pub o: Option<u32> }
 pub enum E { A(u32), B { x: u64, y: bool }, C }
 """
 
+UPD_EXT = {"Tx.add": {"params": ["u32"], "ret": "Result<u32, ()>", "updates": True}, "Tx.seal": {"params": [], "ret": "()", "updates": True},
+           "Tx.len": {"params": [], "ret": "u32"}}
+
 CASES = [
     # ---- accepted: fragments of the generated text
     ("plus", "fn f(a: u64, b: u64) -> u64 { a + b }", ("expect", ["Rs.uadd Rs.U64_MAX a b"])),
@@ -87,7 +90,17 @@ CASES = [
     ("lock3", "pub struct G { pub log: Mutex<Option<Vec<u32>>> }\nimpl G { fn g(&self) -> Option<Vec<u32>> { let mut o = self.log.lock().unwrap(); o.take() } }",
      ("expect", ["G × (Option (List Nat))", "{ self with log := none }"]), ("G", "g")),
     ("vecunder", "fn f(v: &[u32]) -> usize { let w: Vec<_> = v.iter().map(|x| *x).collect(); w.len() }", ("expect", ["w.length"])),
+    # (round 9) `&mut` parameter of an opaque type + declared state-updating externals (`"updates": true`)
+    ("updext", "fn f(t: &mut Tx, x: u32) -> Result<u32, ()> { let n = t.add(x)?; if n > 3 { t.seal(); } Ok(n) }",
+     ("expect", ["(ext_Tx_add : Tx → Nat → (Rs.M (Tx × Nat)))", "(ext_Tx_seal : Tx → Tx)", "let (s_1, r_2) ← ext_Tx_add t x", "let t := s_1",
+                 "ext_Tx_seal t", "pure (t, n)"]), (None, "f"), UPD_EXT),
+    ("updext-tail", "fn f(t: &mut Tx, x: u32) -> Result<u32, ()> { t.add(x) }",
+     ("expect", ["let (s_1, r_2) ← ext_Tx_add t x", "pure (t, r_2)"]), (None, "f"), UPD_EXT),
+    ("updext-pure", "fn f(t: &mut Tx, x: u32) -> u32 { t.seal(); t.len() + x }",
+     ("expect", ["let s_1 := ext_Tx_seal t", "(ext_Tx_len t)", "pure (t, t_2)"]), (None, "f"), UPD_EXT),
     # ---- refused (fail closed)
+    ("r-updext-value", "fn f(t: &mut Tx, x: u32) -> bool { let r = t.add(x); true }", ("refuse", "used other than by `?`"), (None, "f"), UPD_EXT),
+    ("r-updext-undeclared", "fn f(t: &mut Tx) { t.other(); }", ("refuse", "method .other on ('opaque', 'Tx')"), (None, "f"), UPD_EXT),
     ("r-entryloop-partial", "fn f(a: BTreeMap<K2, u64>, b: BTreeMap<K2, u64>) -> BTreeMap<K2, u64> { let mut m = a; for (k, v) in b { m.entry(k).and_modify(|e| *e += v).or_insert(v); } m }",
      ("refuse", "order the model does not know")),
     ("r-entryloop-otherkey", "fn f(a: BTreeMap<K2, u64>, b: BTreeMap<K2, K2>) -> BTreeMap<K2, u64> { let mut m = a; for (k, v) in b { m.entry(v).or_insert(0); } m }",
